@@ -124,6 +124,40 @@ def _mask_patterns(shape):
     return pats
 
 
+def case_mask_subsets(col, p):
+    """EVERY mask (all 2^n subsets of entries in the given index range) x folded x mask_corners(read), plain file, one label/comment set"""
+    import dadi
+    shape, folded = tuple(p['shape']), p['folded']
+    n = int(np.prod(shape))
+    tmp = _tmp()
+    cnt = 0
+    try:
+        fn = os.path.join(tmp, 'm.fs')
+        for bits in range(p['range'][0], p['range'][1]):
+            mask = np.array([(bits >> i) & 1 for i in range(n)], bool).reshape(shape)
+            fs = dadi.Spectrum(_dense(shape).copy(), mask=mask.copy(), mask_corners=False)
+            if folded:
+                fs = fs.fold()
+            src_d, src_m = np.asarray(fs.data).copy(), np.ma.getmaskarray(fs).copy()
+            fs.to_file(fn, precision=17)
+            for mc in (False, True):
+                back = dadi.Spectrum.from_file(fn, mask_corners=mc)
+                col.tick(transitions=1)
+                exm = src_m.copy()
+                if mc:
+                    exm.flat[0] = exm.flat[-1] = True
+                _compare(col, 'C14:format_roundtrip', dict(p, bits=bits, mask_corners=mc), back, src_d, exm, folded, None, 17)
+            pk = pickle.loads(pickle.dumps(fs, 2))
+            col.tick(transitions=1)
+            if not (np.array_equal(np.ma.getmaskarray(pk), src_m) and np.array_equal(np.asarray(pk.data), src_d) and pk.folded == fs.folded):
+                col.violation('C14:pickle:mask', dict(p, bits=bits), '')
+            cnt += 1
+        col.tick(states=cnt, traces=cnt)
+    finally:
+        shutil.rmtree(tmp, ignore_errors=True)
+    col.distinct('nontrivial', ('mask_subsets', shape, folded))
+
+
 def case_format(col, p):
     """labels x comments x foldmaskinfo x mask_corners(read) x mask patterns, for one (shape, folded, gz)"""
     import dadi
@@ -324,7 +358,7 @@ def case_layout(col, p):
     col.distinct('nontrivial', ('layout', shape, gz))
 
 
-CASES = {'layout': case_layout, 'values': case_values, 'format': case_format, 'array_io': case_array_io, 'pickle': case_pickle}
+CASES = {'layout': case_layout, 'mask_subsets': case_mask_subsets, 'values': case_values, 'format': case_format, 'array_io': case_array_io, 'pickle': case_pickle}
 
 
 def _dispatch(col, case):
@@ -348,6 +382,15 @@ def run(ctx):
                 cases.append({'kind': 'format', 'shape': shape, 'folded': folded, 'gz': gz})
     if ctx.quick:
         ctx.note('quick: format lattice on shapes up to 3-D; thorough adds the 4-D and 5-D shapes (value lattice always covers all shapes)')
+    if not ctx.quick:
+        # every one of the 2^n masks of small spectra
+        for shape in [(3,), (5,), (13,), (1, 4), (2, 3), (3, 3), (3, 4), (4, 4), (1, 1, 2), (2, 2, 3), (2, 2, 2, 2)]:
+            n = int(np.prod(shape))
+            step = 512
+            for folded in (False, True):
+                for lo in range(0, 2 ** n, step):
+                    cases.append({'kind': 'mask_subsets', 'shape': shape, 'folded': folded, 'range': [lo, min(2 ** n, lo + step)]})
+        ctx.note('thorough: all 2^n masks for shapes (3,), (5,), (13,), (1,4), (2,3), (3,3), (3,4), (4,4), (1,1,2), (2,2,3), (2,2,2,2) through file and pickle round trips')
     for shape in SHAPES:
         cases.append({'kind': 'array_io', 'shape': shape})
     for shape in [(3,), (2, 3), (3, 2), (2, 3, 4), (2, 3, 2, 3)]:
